@@ -18,6 +18,10 @@ func init() {
 				if id == "C07" {
 					// below the pool: the real factory over the real OpenAPI wrappers and metadata client (c07factory.go)
 					faRun(c, c.Scale(40, 400))
+					// … whose create call is repeated by the pool after an error that hid its effect: unless the cloud recognises the repeat as
+					// the same request it creates a second interface nobody tracks - the client-token discipline of the OpenAPI wrappers
+					// (C16's generator, model and monitors)
+					c16Run(c)
 				}
 				if id == "C06" {
 					// the per-interface limit the pool is started with: limits -> checkInstance / getPoolConfig (c19.go)
@@ -40,6 +44,9 @@ func init() {
 			Exec2: func(c *Ctx, ops []string) ([]string, []string) {
 				if len(ops) > 0 && strings.HasPrefix(ops[0], "fa.") {
 					return ops, faExec(c, ops)
+				}
+				if len(ops) > 0 && strings.HasPrefix(ops[0], "tok.") {
+					return ops, c16Exec(c, ops)
 				}
 				if len(ops) > 0 && strings.HasPrefix(ops[0], "cap.") {
 					return ops, pureExec(c19Exec)(c, ops)
